@@ -34,8 +34,10 @@ impl TryFrom<String> for BuildpackVersion {
         match value
             .split('.')
             .map(|s| {
-                // The spec forbids redundant leading zeros.
-                if s.starts_with('0') && s != "0" {
+                // The spec forbids redundant leading zeros. Only plain digits are allowed, the
+                // integer parser of the standard library would also accept a leading `+`.
+                if (s.starts_with('0') && s != "0") || !s.bytes().all(|byte| byte.is_ascii_digit())
+                {
                     None
                 } else {
                     s.parse().ok()
